@@ -4,7 +4,7 @@
    key check with the client's prefix, hasher.get_node on the routing key); `route` is ANY placement
    function (C11 proves the shipped one is the rendezvous rule). *)
 From Coq Require Import ZArith List Bool.
-From PM Require Import Lib.Py Model.Hash Proofs.C12Proof.
+From PM Require Import Lib.Py Model.Hash Proofs.C12Proof Proofs.C12Store.
 Import ListNotations.
 Open Scope Z_scope.
 
@@ -41,3 +41,30 @@ Theorem c12_get_many : forall route c gets keys (s : hstate),
     contacts s' = contacts s ++ map (fun b => (fst b, (if gets then 3 else 2), [DList (snd b)])) (batches_of route c (h_nodes s) keys []).
 Proof. exact C12Proof.get_many_contacts. Qed.
 Print Assumptions c12_get_many.
+
+(* ---- "anything written by set or set_many is found by get, gets, delete, incr or touch on the same key" ----
+   The write and every later single-key operation on that key reach the same server with the same bare key, and the set_many
+   batch sent to that server carries that key's item (what the server then answers is C05). *)
+Theorem c12_set_then_op : forall route c mset m key d1 d2 args1 args2 (s : hstate) sv k,
+  healthy s -> routed route c (h_nodes s) key = Some (sv, k) -> all_ok 2 s ->
+  exists v2 s', hbind (run_cmd route c mset key d1 args1) (fun _ => run_cmd route c m key d2 args2) s = (Ok v2, s') /\
+    contacts s' = contacts s ++ [(sv, mset, k :: args1); (sv, m, k :: args2)].
+Proof. exact C12Store.set_then_op. Qed.
+Print Assumptions c12_set_then_op.
+Theorem c12_set_many_partition : forall route c nodes values b sv,
+  blookup (vbatches route c nodes values b) sv = blookup b sv ++ items_for route c nodes sv values.
+Proof. exact C12Store.vbatches_partition. Qed.
+Theorem c12_set_many : forall route c values args (s : hstate),
+  healthy s -> Forall (routable route c (h_nodes s)) values -> all_ok (length (vbatches route c (h_nodes s) values [])) s ->
+  exists r s', set_many route c values args s = (Ok r, s') /\ healthy s' /\ h_nodes s' = h_nodes s /\
+    contacts s' = contacts s ++ map (fun b => (fst b, 1, DDict (snd b) :: args)) (vbatches route c (h_nodes s) values []) /\
+    h_out s' = skipn (length (vbatches route c (h_nodes s) values [])) (h_out s).
+Proof. exact C12Store.set_many_contacts. Qed.
+Theorem c12_set_many_then_op : forall route c values args m key value d2 args2 (s : hstate) sv k,
+  healthy s -> Forall (routable route c (h_nodes s)) values -> In (DTuple [key; value]) values -> routed route c (h_nodes s) key = Some (sv, k) ->
+  all_ok (length (vbatches route c (h_nodes s) values []) + 1) s ->
+  exists v2 s', hbind (set_many route c values args) (fun _ => run_cmd route c m key d2 args2) s = (Ok v2, s') /\
+    contacts s' = contacts s ++ map (fun b => (fst b, 1, DDict (snd b) :: args)) (vbatches route c (h_nodes s) values []) ++ [(sv, m, k :: args2)] /\
+    In (DTuple [k; value]) (blookup (vbatches route c (h_nodes s) values []) sv) /\ NoDup (map fst (vbatches route c (h_nodes s) values [])).
+Proof. exact C12Store.set_many_then_op. Qed.
+Print Assumptions c12_set_many_then_op.
